@@ -6,7 +6,7 @@ CONSTANTS
   MaxWS = 400
   MalWS = 400
   WS <- WS3
-  N = 400
+  N = 500
 INIT RandInit
 NEXT RandNext
 INVARIANT EmitResult
